@@ -307,13 +307,22 @@ def c03(M, ctx):
 
 # ----------------------------------------------------------------------------------------------- C04
 def c04(M, ctx):
+    # IDs are resolved per kind (a worker and a facility, or a team and a workplace, may carry the same ID text);
+    # log index t stands for time t * unit_time
+    widx = {wk.ID: i for i, wk in enumerate(M.workers)}
+    fidx = {fc.ID: i for i, fc in enumerate(M.facs)}
+    unit = M.run.get("unit_time", 1)
+    if unit != 1:
+        ctx.cover("unit-time-2")
+    if M.spec.get("idstyle") == "bare":
+        ctx.cover("shared-id-text")
     for ti, task in enumerate(M.tasks):
         ts = tspec(M, ti)
         wrec, frec = task.allocated_worker_id_record, task.allocated_facility_id_record
         for t in range(len(wrec)):
-            ws = [int(x[1:]) for x in (wrec[t] or [])]
-            fs = [int(x[1:]) for x in (frec[t] or [])]
-            prev_ws = [int(x[1:]) for x in (wrec[t - 1] or [])] if t > 0 else []
+            ws = [widx[x] for x in (wrec[t] or [])]
+            fs = [fidx[x] for x in (frec[t] or [])]
+            prev_ws = [widx[x] for x in (wrec[t - 1] or [])] if t > 0 else []
             for w in ws:
                 if w in prev_ws:
                     continue
@@ -322,7 +331,7 @@ def c04(M, ctx):
                     ctx.fail("C04:worker-without-skill")
                 if not team_targets(M, w, ti):
                     ctx.fail("C04:worker-team-not-assigned")
-                if w_absent(M, w, t):
+                if w_absent(M, w, t * unit):
                     ctx.fail("C04:worker-absent-at-allocation")
                 if not fixed_w_ok(M, w, ti):
                     ctx.fail("C04:worker-not-in-fixed-list")
@@ -348,7 +357,7 @@ def c04(M, ctx):
                     ci = ts.get("comp")
                     if ci is not None:
                         placed = M.comps[ci].placed_workplace_id_record[t]
-                        if placed != "wp%d" % M.fwp[f]:
+                        if placed != M.wps[M.fwp[f]].ID:
                             ctx.fail("C04:facility-of-other-workplace")
             elif fs:
                 ctx.fail("C04:facility-on-task-without-need")
